@@ -393,9 +393,7 @@ mod verif_proofs {
                     assert!(got.as_bytes()[i] == eff.as_bytes()[i]);
                     i += 1;
                 }
-                if HN >= 5 {
-                    kani::cover!(rp_present && rp.len() < host.len());
-                }
+                kani::cover!(HN < 5 || (rp_present && rp.len() < host.len()));
                 kani::cover!(!rp_present);
             }
             Err(_) => {
@@ -422,6 +420,7 @@ mod verif_proofs {
     }
     web_instance!(c01_web_free_4_3, 4, 3, 12);
     web_instance!(c01_web_free_5_3, 5, 3, 12);
+    web_instance!(c01_web_free_6_3, 6, 3, 14);
     web_instance!(c01_web_free_6_4, 6, 4, 14);
 
     #[kani::proof]
@@ -471,6 +470,50 @@ mod verif_proofs {
         }
         // is_valid_rp_id agrees
         assert!(verifier.is_valid_rp_id("localhost") == flag);
+        core::mem::forget(verifier);
+        core::mem::forget(url);
+    }
+
+    /// hosts that merely END in "localhost" ("<x>localhost", "<x>.localhost") are not the literal host
+    /// localhost: they get no exemption from the registrable-domain and https requirements
+    #[kani::proof]
+    #[kani::stub(url::Url::domain, stub_domain)]
+    #[kani::stub(url::Url::scheme, stub_scheme)]
+    #[kani::stub(crate::decode_host, stub_decode_host)]
+    #[kani::stub(running_natively, stub_running_natively)]
+    #[kani::unwind(14)]
+    fn c01_localhost_lookalike() {
+        let x: u8 = kani::any();
+        kani::assume(x >= b'a' && x <= b'z');
+        let dotted: bool = kani::any();
+        let mut buf = [0u8; 11];
+        buf[0] = x;
+        let mut n = 1;
+        if dotted {
+            buf[1] = b'.';
+            n = 2;
+        }
+        let lh = b"localhost";
+        let mut i = 0;
+        while i < 9 {
+            buf[n + i] = lh[i];
+            i += 1;
+        }
+        let v: &'static mut [u8; 11] = Box::leak(Box::new(buf));
+        let host: &'static str = unsafe { core::str::from_utf8_unchecked(&v[..n + 9]) };
+        let https: bool = kani::any();
+        let Some(url) = origin_url(Some(host), https) else { return };
+        let verifier = RpIdVerifier::new(TinyPsl).allows_insecure_localhost(true);
+        let r = verifier.assert_web_rp_id(&url, None);
+        // "<x>localhost" is a single label (not registrable); "<x>.localhost" is registrable under the
+        // implicit rule and then needs https like any other origin
+        match r {
+            Ok(_) => assert!(dotted && https),
+            Err(_) => assert!(!(dotted && https)),
+        }
+        assert!(verifier.is_valid_rp_id(host) == dotted);
+        kani::cover!(dotted && https);
+        kani::cover!(!dotted);
         core::mem::forget(verifier);
         core::mem::forget(url);
     }
